@@ -140,8 +140,15 @@ class Verifier(Calls):
     def assume_typed(self, t, ty):
         """heap reads are typed by the spec's field tags (trusted typing assumption)"""
         kind, arg = parse_tag(ty)
-        key = (t.get_id(), ty)
-        if key in self.assumed_reads:
+        guards = list(getattr(self, "spec_guards", ())) if self.spec_mode and not os.environ.get("VERIF_NO_GUARDS") else []
+        if guards and getattr(self, "spec_bound", None):
+            # inside a quantifier body: a guard over the bound variables cannot be what makes a read of a term WITHOUT bound variables
+            # well typed (`forall i: 0 <= i and i < len(self.xs) ...` does not guard the read of self.xs)
+            bound = set().union(*self.spec_bound)
+            if not (_const_names(t) & bound):
+                guards = [g for g in guards if not (_const_names(g) & bound)]
+        key = (t.get_id(), ty) + tuple(g.get_id() for g in guards)
+        if key in self.assumed_reads or (t.get_id(), ty) in self.assumed_reads:
             return
         fact = None
         # a value read from the untouched pre-state heap refers to a pre-existing object (closed heap)
@@ -171,7 +178,9 @@ class Verifier(Calls):
         if fact is not None:
             self.assumed_reads.add(key)
             self.keepalive.append(t)
-            self.assume(fact)
+            self.keepalive.extend(guards)
+            # inside a guarded operand of a specification (implies / ite / and / or / if-else) the typing fact is conditional
+            self.assume(z3.Implies(z3.And(guards), fact) if guards else fact)
 
     # ------------------------------------------------------------- one target
     def verify_target(self, c, max_paths=4000):
@@ -300,7 +309,7 @@ class Verifier(Calls):
                 if "result" not in entry:          # a parameter called `result` keeps its name; the return value is `ret`
                     env["result"] = res
                 for k, e in enumerate(c.ensures):
-                    self.oblige("post", self.spec_bool(parse_expr(e), env), fake, c.labels.get(k, str(k)),
+                    self.oblige("post", self.spec_goal(e, env), fake, c.labels.get(k, str(k)),
                                 extra=dict(path=list(self.path_notes), exit="normal"))
                 if c.returns is not None:
                     self.oblige("post", self.conforms(res, c.returns), fake, "returns",
@@ -311,11 +320,34 @@ class Verifier(Calls):
                     self.oblige("noraise", z3.BoolVal(False), fake, None, extra=dict(path=list(self.path_notes), exit="raise", note=outcome[2]))
                 else:
                     for k, e in enumerate(c.exsures):
-                        self.oblige("expost", self.spec_bool(parse_expr(e), env), fake, str(k),
+                        self.oblige("expost", self.spec_goal(e, env), fake, str(k),
                                     extra=dict(path=list(self.path_notes), exit="raise", note=outcome[2]))
             self.frame_obligations(c, env, pre_heap, fake)
         except PathEnd:
+            if os.environ.get("VERIF_DEBUG_CUT"):
+                import traceback, sys as _sys, ast as _ast
+                traceback.print_exc()
+                tb = _sys.exc_info()[2]
+                while tb is not None:
+                    n = tb.tb_frame.f_locals.get("node")
+                    if n is not None and tb.tb_frame.f_code.co_name in ("ev_Attribute", "read_field", "from_term", "assume_typed"):
+                        try:
+                            print("   at spec/code node:", _ast.unparse(n)[:100], {k: str(v)[:80] for k, v in tb.tb_frame.f_locals.items() if k in ("ty", "tag", "attr", "fact")})
+                        except Exception:
+                            pass
+                    tb = tb.tb_next
             self.exit_kinds["cut"] += 1
+
+    def spec_goal(self, e, env):
+        """a postcondition as a goal.  If evaluating it contradicts the path (a typed heap read in it -- a trusted typing assumption --
+        is false for the value the code actually stored) the clause cannot hold as written: the goal is False under the path
+        condition, never a silently dropped path"""
+        n = len(self.st.pc)
+        try:
+            return self.spec_bool(parse_expr(e), env)
+        except PathEnd:
+            del self.st.pc[n:]
+            return z3.BoolVal(False)
 
     def conforms(self, v, tag):
         """the returned value has the declared result type"""
@@ -577,6 +609,23 @@ def to_smt2_ground(obl):
             s.add(a)
     s.add(z3.Not(obl.goal))
     return s.to_smt2()
+
+
+def _const_names(term):
+    """names of the 0-ary uninterpreted constants of a term"""
+    names, seen, todo = set(), set(), [term]
+    while todo:
+        x = todo.pop()
+        if x.get_id() in seen:
+            continue
+        seen.add(x.get_id())
+        if z3.is_quantifier(x):
+            todo.append(x.body())
+        elif z3.is_app(x):
+            if x.num_args() == 0 and x.decl().kind() == z3.Z3_OP_UNINTERPRETED:
+                names.add(x.decl().name())
+            todo.extend(x.children())
+    return names
 
 
 def term_symbols(term, cache={}):
